@@ -698,11 +698,21 @@ func genC10(tier string, r *core.Rand, run int) C10Plan {
 	}
 	// forwarder lists: none / {A} / {A,B}
 	fwList := func() []string {
-		switch r.Pick(4, 3, 3) {
+		switch r.Pick(8, 6, 6, 2) {
 		case 0:
 			return nil
 		case 1:
 			return []string{genAddrForm(r, r.Intn(4))}
+		case 3:
+			// a remote may announce the same address twice, or in two spellings
+			// (;FW: N0CALL n0call@winlink.org), possibly among others
+			a := r.Intn(4)
+			l := []string{genAddrForm(r, a), genAddrForm(r, a)}
+			if r.Bool() {
+				l = append(l, genAddrForm(r, a+1+r.Intn(3)))
+				core.Shuffle(r, l)
+			}
+			return l
 		}
 		a := r.Intn(4)
 		return []string{genAddrForm(r, a), genAddrForm(r, a+1+r.Intn(3))}
